@@ -441,7 +441,10 @@ def run(ctx):
                          ("a[0 to *]", True), ("a[1 to 2]", True), ("[...a]", True), ("[x for x in a]", True), ("<<x for x in a>>", True),
                          ("sorted(a)", True), ("sublist(a, 0)", True), ("string(a)", False), ("length(a)", False), ("for x in a do x end", False),
                          ("def [p1, q1] = a", False), ("a !> identity()", False), ("if a == b then 1 else 2", False), ("[a, b]", False),
-                         ("<<<1 => a>>>", False), ("a + [b]", True), ("[a] + b", True)]:
+                         ("<<<1 => a>>>", False), ("a + [b]", True), ("[a] + b", True),
+                         # read-only lookups with and without a default, of present and of missing keys / members / indices
+                         ("a[b, 0]", False), ("a['zz', b]", False), ("a[b]", False), ("a[0, b]", False), ("a[7, b]", False), ("a->zz", False), ("a->zz()", False),
+                         ("b in a", False), ("b not in a", False), ("a is empty", False), ("[x for x in a if x == b]", False), ("a[b, []]", False), ("a['zz', <<<>>>]", False)]:
             for i in range(n):
                 for j in range(n):
                     forms.append((f, {"a": i, "b": j}, [], fresh))
